@@ -256,6 +256,45 @@ def construct(cmd, setname, a):
     return cls(cmd.opcode_obj(setname), **call_kwargs(cmd, a))
 
 
+_SIG = {}
+
+
+def _sig(which):
+    if which not in _SIG:
+        import json
+        import os
+
+        with open(os.path.join(os.path.dirname(os.path.abspath(__file__)), "spec", which + "_sig.json")) as f:
+            _SIG[which] = json.load(f)
+    return _SIG[which]
+
+
+def split_positional(sig, kw):
+    """(args, kwargs): every leading declared parameter that is supplied goes by position, in the documented order (snapshot of
+    the signatures at the pinned commit: vmon/spec/*_sig.json); the rest stays keyword"""
+    args = []
+    kw = dict(kw)
+    for name, kind, _has_default in sig:
+        if kind != "POSITIONAL_OR_KEYWORD" or name not in kw:
+            break
+        args.append(kw.pop(name))
+    return args, kw
+
+
+def construct_positional(cmd, setname, a):
+    args, kw = split_positional(_sig("ctor")[cmd.name], call_kwargs(cmd, a))
+    return cmd.load()(cmd.opcode_obj(setname), *args, **kw)
+
+
+def facade_call_positional(cmd, scsi, a):
+    kw = call_kwargs(cmd, a)
+    if "blocksize" in kw and cmd.xfer != "ata":
+        scsi.blocksize = kw.pop("blocksize")
+    kw.update(cmd.facade_fixed)
+    args, kw = split_positional(_sig("facade")[cmd.facade], kw)
+    return getattr(scsi, cmd.facade)(*args, **kw)
+
+
 def facade_call(cmd, scsi, a):
     kw = call_kwargs(cmd, a)
     if "blocksize" in kw and cmd.xfer != "ata":
